@@ -9,6 +9,7 @@ mod misc;
 mod numops;
 mod linalg;
 mod fxops;
+mod curveops;
 
 fn main() {
     let path = std::env::args().nth(1).expect("usage: vreplay <scenarios.json>");
@@ -35,6 +36,7 @@ fn run(sc: &Value) -> Value {
         k if k.starts_with("cal") => calops::run(sc),
         "linalg" => linalg::run(sc),
         "fx" => fxops::run(sc),
+        "curve" => curveops::run(sc),
         k if k.starts_with("number") || k == "set_order" || k == "from" => numops::run(sc),
         _ => misc::run(sc),
     }
